@@ -92,6 +92,11 @@ const EDITS: &[Edit] = &[
     ed("foreign-only-input", Reject, Needs::Fresh),
     ed("nonexistent-input", Reject, Needs::Fresh),
     ed("already-spent-input", Reject, Needs::Fresh),
+    // the ledger look-up covers every slip type: a BlockStake-typed input of the signer's own key
+    // that never existed / was already re-staked, named by a transaction that is not a staking one
+    ed("nonexistent-stake-typed-input", Reject, Needs::Fresh),
+    ed("nonexistent-stake-typed-only-input", Reject, Needs::Fresh),
+    ed("spent-stake-typed-input", Reject, Needs::Staking),
     ed("duplicate-input-in-tx", Reject, Needs::Fresh),
     Edit { name: "same-input-in-two-txs", expect: Reject, known: None, needs: Needs::Fresh, venues: Venues::BlockOnly, stake_slot: false },
     ed("outputs-exceed-inputs", Reject, Needs::Fresh),
@@ -768,6 +773,33 @@ async fn make_edit(w: &mut World, built: &Built, e: usize, ts: u64, rng: &mut Rn
             let mut s = own.clone();
             s.amount += 777;
             one(raw_tx(n, vec![s.clone()], vec![slip_out(apk, s.amount)], &ask, ts))
+        }
+        "nonexistent-stake-typed-input" | "nonexistent-stake-typed-only-input" => {
+            let mut fake = slip_typed(apk, 500_000, SlipType::BlockStake);
+            fake.block_id = latest;
+            fake.tx_ordinal = 1;
+            fake.slip_index = 0;
+            if EDITS[e].name == "nonexistent-stake-typed-input" {
+                one(raw_tx(n, vec![own.clone(), fake.clone()], vec![slip_out(apk, own.amount + fake.amount)], &ask, ts))
+            } else {
+                one(raw_tx(n, vec![fake.clone()], vec![slip_out(apk, fake.amount)], &ask, ts))
+            }
+        }
+        "spent-stake-typed-input" => {
+            // a stake the producer has already re-staked, spent once more by its owner in a Normal transaction
+            let mut spent: Option<Slip> = None;
+            for b in w.history.iter().rev() {
+                for t in b.transactions.iter() {
+                    for sl in t.from.iter() {
+                        if sl.slip_type == SlipType::BlockStake && sl.amount > 0 && spent.is_none() {
+                            spent = Some(sl.clone());
+                        }
+                    }
+                }
+            }
+            let sl = spent?;
+            let sk = sk_of(w, &sl.public_key)?;
+            one(raw_tx(n, vec![sl.clone()], vec![slip_out(sl.public_key, sl.amount)], &sk, ts))
         }
         "already-spent-input" => one(raw_tx(n, vec![w.spent_slip.clone()], vec![slip_out(apk, w.spent_slip.amount)], &ask, ts)),
         "duplicate-input-in-tx" => one(raw_tx(n, vec![own.clone(), own.clone()], vec![slip_out(apk, own.amount * 2)], &ask, ts)),
@@ -1907,8 +1939,10 @@ async fn main() {
             if !applicable {
                 continue;
             }
-            for venue in ["pool", "block", "verify"] {
-                if venue != "block" && edit.venues == Venues::BlockOnly {
+            // "block-browser": the attacker's block offered to a full node whose configuration says
+            // browser = true (spv = false): block validation is the same
+            for venue in ["pool", "block", "verify", "block-browser"] {
+                if !venue.starts_with("block") && edit.venues == Venues::BlockOnly {
                     continue;
                 }
                 // a fresh node per case (the world's blocks replayed) so cases do not interfere
@@ -2117,6 +2151,9 @@ async fn main() {
                                 real.push(real_verdict(&w.node, t));
                             }
                             block_txs = Some((b.id, abs, real));
+                            if venue == "block-browser" {
+                                w.node.cfg.browser = true;
+                            }
                             let r = futures_catch(AssertUnwindSafe(w.node.add_block(b.clone()))).await;
                             match r {
                                 Ok(c) => {
@@ -2193,7 +2230,7 @@ async fn main() {
                     // nothing about that, the Accept expectation is only a sanity check of the harness
                     Accept
                         if !accepted
-                            && venue != "block"
+                            && !venue.starts_with("block")
                             && txs[0].transaction_type == TransactionType::BlockStake
                             && txs[0].from.iter().any(|i| i.public_key != w.node.pk) =>
                     {
